@@ -1,5 +1,6 @@
 /- Line-protocol front end of the commit-log model (see harness/commitlog). -/
 import Liftbridge.Model.Log
+import Liftbridge.Model.Compact
 import Liftbridge.Driver.Crc
 
 namespace Liftbridge.Driver
@@ -49,7 +50,7 @@ def showRec (r : Rec) : String :=
 def showRecs (rs : List Rec) : String := " ".intercalate (rs.map showRec)
 
 def showSeg (s : Seg) : String :=
-  s!"{s.base}:{s.firstOffset}:{s.lastOffset}:{s.count}:{s.position}"
+  s!"{s.base}:{s.firstOffset}:{s.lastOffset}:{s.count}:{s.position}:{s.lastTs}"
 
 def showState (l : CLog) : String :=
   let segs := ",".intercalate (l.segs.map showSeg)
@@ -80,12 +81,30 @@ def mapIdxM {α β} (f : Nat → α → Option β) : Nat → List α → Option 
 
 def showOffs (o : List Int) : String := "[" ++ ",".intercalate (o.map toString) ++ "]"
 
-def logStep (l : CLog) (toks : List String) : CLog × String :=
+/-- Cleaner configuration of the log under test (Options.MaxLog*, Compact). -/
+structure CleanCfg where
+  lim : Retention.Limits := ⟨0, 0, 0⟩
+  compact : Bool := false
+  deriving Inhabited
+
+def parseCfg (cfg : CleanCfg) : List String → Option CleanCfg
+  | [] => some cfg
+  | kv :: rest =>
+    match kv.splitOn "=" with
+    | [k, v] =>
+      match v.toInt? with
+      | some n =>
+        if k = "compact" then parseCfg { cfg with compact := n = 1 } rest
+        else if k = "workers" then parseCfg cfg rest
+        else if k = "maxbytes" then parseCfg { cfg with lim := { cfg.lim with bytes := n } } rest
+        else if k = "maxmsgs" then parseCfg { cfg with lim := { cfg.lim with msgs := n } } rest
+        else if k = "maxage" then parseCfg { cfg with lim := { cfg.lim with age := n } } rest
+        else none
+      | none => none
+    | _ => none
+
+def logStep' (cfg : CleanCfg) (l : CLog) (toks : List String) : CLog × String :=
   match toks with
-  | ["begin", m, occ] =>
-    match m.toInt? with
-    | some m => let l := CLog.init m (occ = "1"); (l, "ok | " ++ showState l)
-    | none => (l, "bad-op")
   | "append" :: e :: t :: msgs =>
     match e.toNat?, t.toInt? with
     | some e, some t =>
@@ -130,11 +149,28 @@ def logStep (l : CLog) (toks : List String) : CLog × String :=
       (l, showRes showRecs r)
     | none => (l, "bad-op")
   | ["state"] => (l, "ok | " ++ showState l)
+  | ["clean", ttl] =>
+    match ttl.toInt? with
+    | some ttl => let l' := Compact.cleanLog cfg.lim ttl cfg.compact l; (l', "ok | " ++ showState l')
+    | none => (l, "bad-op")
   | _ => (l, "bad-op")
 where
   showRes {α} (f : α → String) : Res α → String
     | .ok a => "ok " ++ f a
     | .err e => "err " ++ e
     | .panic => "panic"
+
+structure LogSt where
+  cfg : CleanCfg := {}
+  l : CLog := CLog.init 1024 false
+  deriving Inhabited
+
+def logStep (st : LogSt) (toks : List String) : LogSt × String :=
+  match toks with
+  | "begin" :: m :: occ :: kvs =>
+    match m.toInt?, parseCfg {} kvs with
+    | some m, some cfg => let l := CLog.init m (occ = "1"); ({ cfg := cfg, l := l }, "ok | " ++ showState l)
+    | _, _ => (st, "bad-op")
+  | _ => let (l, out) := logStep' st.cfg st.l toks; ({ st with l := l }, out)
 
 end Liftbridge.Driver
